@@ -71,6 +71,8 @@ type Env struct {
 	trust signers.VerifyOpts
 	mu    sync.Mutex
 	seq   int
+	// inProcess: verify in this process (children, --replay)
+	inProcess bool
 }
 
 func (e *Env) tok(key string) (token.Token, error) {
@@ -150,7 +152,8 @@ func (e *Env) signData(format, input string, data []byte, fileName, sigType stri
 // ---- verification ------------------------------------------------------------
 
 type worker struct {
-	dir string
+	dir   string
+	child *verifyChild
 }
 
 func newWorker(env *Env, i int) *worker {
@@ -159,27 +162,65 @@ func newWorker(env *Env, i int) *worker {
 	return &worker{dir: d}
 }
 
+func (w *worker) close() {
+	if w.child != nil {
+		w.child.stop()
+		w.child = nil
+	}
+}
+
 type result struct {
-	Outcome string // accepted | accepted-zero-signatures | rejected | not-signed | panic
+	Outcome string // accepted | accepted-zero-signatures | rejected | not-signed | panic | crash
 	Err     string
 }
 
+// verify writes the case to the worker's directory and has the worker's child
+// process verify it.
 func (w *worker) verify(env *Env, a *Artifact, data, content []byte) (res result) {
 	p := filepath.Join(w.dir, a.FileName)
 	if err := os.WriteFile(p, data, 0o644); err != nil {
 		panic(err)
 	}
-	opts := env.trust
+	cp := ""
 	if a.Content != nil {
-		cp := filepath.Join(w.dir, a.FileName+".content")
+		cp = filepath.Join(w.dir, a.FileName+".content")
 		if content == nil {
 			content = a.Content
 		}
 		if err := os.WriteFile(cp, content, 0o644); err != nil {
 			panic(err)
 		}
-		opts.Content = cp
 	}
+	if env.inProcess {
+		return verifyInProcess(env, p, cp)
+	}
+	for attempt := 0; attempt < 3; attempt++ {
+		if w.child == nil {
+			c, err := startChild()
+			if err != nil {
+				harnessFatal("cannot start verification child: %v", err)
+			}
+			w.child = c
+		}
+		r, ok := w.child.request(p, cp)
+		if ok {
+			return r
+		}
+		_ = w.child.cmd.Wait()
+		sum := crashSummary(w.child.stderr.String())
+		w.child.stop()
+		w.child = nil
+		if strings.HasPrefix(sum, "child died") && attempt < 2 {
+			continue // no runtime message: retry once on a fresh child before believing it
+		}
+		return result{Outcome: "crash", Err: sum}
+	}
+	return result{Outcome: "crash", Err: "child died repeatedly without a runtime message"}
+}
+
+func verifyInProcess(env *Env, p, contentPath string) (res result) {
+	opts := env.trust
+	opts.Content = contentPath
 	defer func() {
 		if r := recover(); r != nil {
 			st := string(debug.Stack())
@@ -297,8 +338,11 @@ func writeFile(p string, b []byte) error { return os.WriteFile(p, b, 0o644) }
 func readFile(p string) ([]byte, error)  { return os.ReadFile(p) }
 func relicxPackages(name string) string  { return filepath.Join(relicx.Packages, name) }
 
+var cleanupHook = func() {}
+
 func harnessFatal(format string, args ...any) {
 	fmt.Printf("HARNESS-ERROR: "+format+"\n", args...)
+	cleanupHook()
 	os.Exit(2)
 }
 
@@ -404,9 +448,9 @@ func runFlips(env *Env, targets []flipTarget, workers int) {
 						region := tgt + v.Region
 						note(a, region, v.Class, res.Outcome)
 						run.Outcome(a.Fmt + ":flip:" + v.Class.String() + ":" + res.Outcome)
-						if res.Outcome == "panic" {
+						if res.Outcome == "panic" || res.Outcome == "crash" {
 							tallyMu.Lock()
-							panics[a.Fmt+": "+res.Err]++
+							panics[a.Fmt+": "+res.Outcome+": "+res.Err]++
 							tallyMu.Unlock()
 						}
 						if v.Class == Protected {
@@ -433,6 +477,9 @@ func runFlips(env *Env, targets []flipTarget, workers int) {
 		}(ws[wi])
 	}
 	wg.Wait()
+	for _, w := range ws {
+		w.close()
+	}
 }
 
 // ---- semantic mutations --------------------------------------------------------
@@ -481,8 +528,8 @@ func runSemantic(env *Env, arts []*Artifact, workers int) {
 				run.Outcome(a.Fmt + ":semantic:" + cls + ":" + res.Outcome)
 				tallyMu.Lock()
 				semLog = append(semLog, semRecord{a.ID(), sm.Class, sm.Site, sm.Assert, res.Outcome, short(res.Err, 120), sm.Why})
-				if res.Outcome == "panic" {
-					panics[a.Fmt+": "+res.Err]++
+				if res.Outcome == "panic" || res.Outcome == "crash" {
+					panics[a.Fmt+": "+res.Outcome+": "+res.Err]++
 				}
 				tallyMu.Unlock()
 				if sm.Assert && strings.HasPrefix(res.Outcome, "accepted") {
@@ -499,6 +546,9 @@ func runSemantic(env *Env, arts []*Artifact, workers int) {
 		}(ws[wi])
 	}
 	wg.Wait()
+	for _, w := range ws {
+		w.close()
+	}
 }
 
 // siteClass: the part of a site name before the first ':' names the site
@@ -547,6 +597,12 @@ func main() {
 		}
 	}
 	relicx.Quiet()
+	if os.Getenv(childEnv) != "" {
+		env := &Env{cfg: relicx.BaseConfig("file"), trust: relicx.TrustOpts(), inProcess: true}
+		relicx.Use(env.cfg)
+		childMain(env)
+		os.Exit(0)
+	}
 	base := "/dev/shm"
 	if _, err := os.Stat(base); err != nil {
 		base = ""
@@ -556,12 +612,14 @@ func main() {
 		panic(err)
 	}
 	cleanup := func() { os.RemoveAll(tmp) }
+	cleanupHook = cleanup
 	defer cleanup()
 	env := &Env{cfg: relicx.BaseConfig("file"), toks: map[string]token.Token{}, tmp: tmp, trust: relicx.TrustOpts()}
 	relicx.Use(env.cfg)
 
 	for i, arg := range os.Args {
 		if arg == "--replay" && i+1 < len(os.Args) {
+			env.inProcess = true
 			code := replay(env, os.Args[i+1])
 			cleanup()
 			os.Exit(code)
@@ -610,6 +668,7 @@ func main() {
 	for _, a := range arts {
 		if res := w0.verify(env, a, a.Signed, nil); res.Outcome != "accepted" {
 			cleanup()
+			w0.close()
 			harnessFatal("the unmodified signed artifact %s does not verify: %s %s", a.ID(), res.Outcome, res.Err)
 		}
 		if a.Map == nil || a.Map.N != len(a.Signed) {
@@ -641,6 +700,7 @@ func main() {
 			_ = os.WriteFile(filepath.Join(d, "map.txt"), []byte(sb.String()), 0o644)
 		}
 	}
+	w0.close()
 	buildSecs := time.Since(start).Seconds()
 
 	var targets []flipTarget
